@@ -67,6 +67,11 @@ class Exec(Core):
         while isinstance(v, VUnion):
             if v.resolved is None:
                 i = self.choose([g for g, _ in v.alts])
+                if getattr(self, 'no_fork', 0):
+                    # inside a speculative evaluation the choice holds only under the
+                    # local assumption: do not memoise it
+                    v = v.alts[i][1]
+                    continue
                 v.resolved = v.alts[i][1]
             v = v.resolved
         return v
@@ -90,6 +95,9 @@ class Exec(Core):
             return self.const_value(sort.args[0])
         if tag == 'Ref':
             return VOpaque(z3.Const(self.fresh_name(hint), RefSort), sort.args[0])
+        if tag == 'Cls':
+            info = self.find_class(sort.args[0])
+            return VClass(info if info is not None else sort.args[0])
         if tag == 'Union':
             n = len(sort.args)
             tagv = z3.Int(self.fresh_name(hint + '_tag'))
@@ -333,7 +341,41 @@ class Exec(Core):
                     return False
         self.limit(f'equality of {a} and {b}')
 
+    def lift2(self, fn, a, b):
+        """Apply a binary predicate to possibly unresolved unions without forking:
+        Or over the alternatives of And(guards, fn(alternatives))."""
+        def alts(v):
+            if isinstance(v, VUnion):
+                if v.resolved is not None:
+                    return alts(v.resolved)
+                out = []
+                for g, x in v.alts:
+                    for g2, x2 in alts(x):
+                        out.append((z3.And(g, g2) if g2 is not True else g, x2))
+                return out
+            return [(True, v)]
+        terms = []
+        for ga, va in alts(a):
+            for gb, vb in alts(b):
+                t = fn(va, vb)
+                if t is False:
+                    continue
+                gs = [g for g in (ga, gb) if g is not True]
+                if t is not True:
+                    gs.append(t.t if isinstance(t, VBool) else t)
+                terms.append(z3.And(*gs) if len(gs) > 1 else (gs[0] if gs else True))
+        if any(t is True for t in terms):
+            return True
+        if not terms:
+            return False
+        return z3.Or(*terms) if len(terms) > 1 else terms[0]
+
+    def is_unresolved(self, v):
+        return isinstance(v, VUnion) and v.resolved is None
+
     def identical(self, a, b):
+        if self.is_unresolved(a) or self.is_unresolved(b):
+            return self.lift2(self.identical, a, b)
         a, b = self.res(a), self.res(b)
         if isinstance(a, VNone) or isinstance(b, VNone):
             if isinstance(a, VNone) and isinstance(b, VNone):
